@@ -28,6 +28,10 @@ Lemma all_tables_agree_flat : forall t T n v v',
   In (t, T) all_tables -> In (n, v) T -> registry_lookup n = Some v' -> v = v'.
 Proof. intros t T n v v' Ht. exact (all_tables_agree t T Ht n v v'). Qed.
 
+Lemma in_all_tables : forall t T,
+  find (fun x => String.eqb (fst x) t) all_tables = Some (t, T) -> In (t, T) all_tables.
+Proof. intros t T H. apply find_some in H. destruct H as [H _]. exact H. Qed.
+
 (* ---- the registry is a function: no name twice, so lookup = membership *)
 Lemma names_distinct_nodup : forall l, names_distinct l = true -> NoDup l.
 Proof.
